@@ -118,6 +118,7 @@ type c17Case struct {
 	dead     string // scan only: how keys are removed: del | unlink | expire | mixed (unlinked and expired keys linger in the table)
 	prechurn int    // add+remove cycles of temporary names before the iteration (ages the table's removal bookkeeping)
 	spread   bool   // mutation phases spread over the whole iteration instead of the first calls
+	viaCopy  bool   // hscan/sscan: iterate over a COPY of the collection
 	compact  bool   // names with pairwise different low hash bits: the table stays about twice the element count, so it really halves when elements go
 }
 
@@ -414,6 +415,14 @@ func c17Run(r *verdict.Run, e *emu, cs c17Case, rng *rand.Rand) {
 			plan = append(plan, p)
 		}
 	}
+	if cs.viaCopy && cs.kind != "scan" {
+		// the collection the iteration runs over is a COPY of the one that was built (a copy has its own table, made by
+		// other code than the one that grew the original)
+		if v, err := mut.Do("COPY", coll, coll+"-copy"); err == nil && v.Int == 1 {
+			mut.Do("DEL", coll)
+			mut.Do("RENAME", coll+"-copy", coll)
+		}
+	}
 	// the iteration
 	returned := map[string]int{}
 	retVals := map[string]map[string]bool{}
@@ -672,7 +681,7 @@ func c17Run(r *verdict.Run, e *emu, cs c17Case, rng *rand.Rand) {
 }
 
 func checkC17(r *verdict.Run) {
-	r.Rule = "full iterations (cursor 0 -> ... -> 0, cursors fed back verbatim) of SCAN/HSCAN/SSCAN over collections of 0-3000 elements with COUNT in {1,2,7,10,100,10000}, with and without MATCH/TYPE (patterns with wildcards, with escapes only, plain literals; names that contain the metacharacters themselves), while the driver itself grows (several table doublings), shrinks (table halving), grows-shrinks-grows, churns, loses six sevenths of its elements in the middle of the iteration, or is completely emptied (key by key, or by FLUSHDB/FLUSHALL/DEL) the collection between calls (during the first calls or spread over the iteration); names random, chosen to share 10-16 low hash bits (long doubling chains) or chosen with pairwise different low bits (compact tables that really halve when elements go); keys removed by DEL, UNLINK or a passed deadline (the latter two leave dead keys in the table, some already dead when the iteration starts), on fresh tables and on tables aged by add/remove cycles. " +
+	r.Rule = "full iterations (cursor 0 -> ... -> 0, cursors fed back verbatim) of SCAN/HSCAN/SSCAN over collections of 0-3000 elements with COUNT in {1,2,7,10,100,10000}, with and without MATCH/TYPE (patterns with wildcards, with escapes only, plain literals; names that contain the metacharacters themselves), while the driver itself grows (several table doublings), shrinks (table halving), grows-shrinks-grows, churns, loses six sevenths of its elements in the middle of the iteration, or is completely emptied (key by key, or by FLUSHDB/FLUSHALL/DEL) the collection between calls (during the first calls or spread over the iteration); names random, chosen to share 10-16 low hash bits (long doubling chains) or chosen with pairwise different low bits (compact tables that really halve when elements go); keys removed by DEL, UNLINK or a passed deadline (the latter two leave dead keys in the table, some already dead when the iteration starts), on fresh tables, on tables aged by add/remove cycles and (every other hash/set case) on a COPY of the collection that was built. " +
 		"oracle (set arithmetic, no model of the cursor): returned >= stable elements matching the filter, nothing never-present, already dead or non-matching returned, HSCAN values were really held, a second quiet iteration returns only elements that exist by a point query, termination within 4*(elements)/COUNT+64 calls and no cursor repeated after mutations stop. distinct = (command, script, size, COUNT, filter, adversarial bits)"
 	sizes := []int{0, 1, 5, 17, 100}
 	counts := []int{1, 2, 7, 10, 100, 10000}
@@ -697,6 +706,7 @@ func checkC17(r *verdict.Run) {
 						continue
 					}
 					c := c17Case{kind: kind, size: size, count: cnt, script: script, compact: script == "collapse"}
+					c.viaCopy = (size+cnt+len(script))%2 == 1
 					switch rng0.Intn(6) {
 					case 5:
 						c.match = c17SpecialPatterns[rng0.Intn(len(c17SpecialPatterns))]
